@@ -109,12 +109,13 @@ def parseFlags : Flags → Nat → List Nat → Flags × Nat × List Nat
     | some f' => parseFlags f' (i + 1) rest
     | none => (f, i, c :: rest)
 
-/-- the `while let` loop of `parse_quantity` (`i32` accumulator with checked arithmetic) -/
+/-- the `while let` loop of `parse_quantity` (`isize` accumulator with checked arithmetic — CPython
+    keeps the width in a `Py_ssize_t`; an `i32` before 4850e50) -/
 def parseDigits : Nat → Nat → List Nat → Res (Nat × Nat × List Nat)
   | num, i, [] => .ok (num, i, [])
   | num, i, c :: rest =>
     if isDigit c then
-      if num * 10 + (c - 48) > i32Max then .err .intTooBig i
+      if num * 10 + (c - 48) > isizeMax then .err .intTooBig i
       else parseDigits (num * 10 + (c - 48)) (i + 1) rest
     else .ok (num, i, c :: rest)
 
@@ -131,11 +132,14 @@ def parseQuantity (i : Nat) (rest : List Nat) : Res (Option Quantity × Nat × L
       | .panic => .panic
     else .ok (none, i, rest)
 
-/-- `parse_precision` -/
+/-- `parse_precision` (4850e50: the precision is a C `int` in CPython — `IntTooBig` at the index of
+    the `.` above `i32::MAX`) -/
 def parsePrecision (i : Nat) (rest : List Nat) : Res (Option Precision × Nat × List Nat) :=
   match rest with
   | 46 :: rest' =>
     match parseQuantity (i + 1) rest' with
+    | .ok (some (.amount a), i', r) =>
+      if a > i32Max then .err .intTooBig i else .ok (some (.quantity (.amount a)), i', r)
     | .ok (some q, i', r) => .ok (some (.quantity q), i', r)
     | .ok (none, i', r) => .ok (some .dot, i', r)
     | .err k j => .err k j
@@ -218,10 +222,11 @@ def flushLit (partIndex : Nat) (lit : List Nat) : List (Nat × Part) :=
   if lit.isEmpty then [] else [(partIndex, .literal lit)]
 
 /-- The `while let Some((index, c)) = iter.next()` loop of `CFormatString::parse` /
-    `CFormatBytes::parse`.  `lit` is the pending literal, `partIndex` its recorded index.
+    `CFormatBytes::parse` (they differ in one point: the text parser rejects the conversion `b`).
+    `lit` is the pending literal, `partIndex` its recorded index.
     Every round consumes at least one element, so `fuel = length + 1` is never exhausted
     (`Lemmas.parseLoop_fuel`); running out of fuel is reported as `panic` to keep it visible. -/
-def parseLoop : Nat → Nat → List Nat → List Nat → Nat → Res (List (Nat × Part))
+def parseLoop (text : Bool) : Nat → Nat → List Nat → List Nat → Nat → Res (List (Nat × Part))
   | 0, _, _, _, _ => .panic
   | _ + 1, _, [], lit, partIndex => .ok (flushLit partIndex lit)
   | fuel + 1, i, c :: rest, lit, partIndex =>
@@ -229,21 +234,26 @@ def parseLoop : Nat → Nat → List Nat → List Nat → Nat → Res (List (Nat
       match rest with
       | [] => .err .incomplete (i + 1)
       | d :: rest' =>
-        if d = 37 then parseLoop fuel (i + 2) rest' (lit ++ [37]) partIndex
+        if d = 37 then parseLoop text fuel (i + 2) rest' (lit ++ [37]) partIndex
         else
           match parseSpec (i + 1) (d :: rest') with
           | .err k j => .err k j
           | .panic => .panic
           | .ok (spec, i', rest'') =>
+            -- d7ac332: `%b` is a conversion of bytes templates only; `CFormatString::parse` rejects it
+            -- with the index of the type character (the last element the spec consumed)
+            if text ∧ spec.fchar = 98 then .err (.unsupported 98) (i' - 1) else
             let partIndex' := if rest''.isEmpty then partIndex else i'
-            match parseLoop fuel i' rest'' [] partIndex' with
+            match parseLoop text fuel i' rest'' [] partIndex' with
             | .ok ps => .ok (flushLit partIndex lit ++ (i, .spec spec) :: ps)
             | .err k j => .err k j
             | .panic => .panic
-    else parseLoop fuel (i + 1) rest (lit ++ [c]) partIndex
+    else parseLoop text fuel (i + 1) rest (lit ++ [c]) partIndex
 
-/-- `CFormatString::from_str` (scalar values) and `CFormatBytes::parse_from_bytes` (bytes) -/
-def parseTemplate (t : List Nat) : Res (List (Nat × Part)) := parseLoop (t.length + 1) 0 t [] 0
+/-- `CFormatString::from_str` (`text = true`, scalar values) and `CFormatBytes::parse_from_bytes`
+    (`text = false`, bytes) -/
+def parseTemplate (text : Bool) (t : List Nat) : Res (List (Nat × Part)) :=
+  parseLoop text (t.length + 1) 0 t [] 0
 
 /-- `check_specifiers`: `(number of specifiers, mapping required)`, `none` when keyed and unkeyed
     specifiers are mixed -/
